@@ -97,15 +97,20 @@ def generate(tier, rng):
         for sep in ["", '"', "'"]:
             cases.append(Case("xglob", [env, toks([("", "prog"), (sep, p), ("'", "*")])], {"gen": "gl"}))
         cases.append(Case("xall", [env, toks([("", "prog"), ("", p), ('"', "q *"), ("", "{a,b}" + p)])], {"gen": "gl"}))
+    env_blank = gens.env_field(vars={"A": "a*"}, exported={"HOME": "/t/John Doe"})
+    # two expansions in one word: tilde + brace / range / glob, also under a $HOME that holds a blank
+    for w in ["~/{a,b}", "~/x{1..3}", "~/*", "~/*.txt", "~{a,b}", "~/{a,b}/*", "{~,b}", "{a,b}*", "*{a,b}", "x{1..2}{a,b}", "~/{1..2}*"]:
+        for e in (env, env_blank):
+            cases.append(Case("xall", [e, toks([("", "prog"), ("", w), ("'", "~/{a,b}")])], {"gen": "mix2"}))
     for _ in range(n // 4):
-        ws = [r.choice(["prog", "{a,b}", "x{1..3}", "{1..3}", "~", "~/x", "*", "a*", "'{a,b}'", '"~"', "$A", "{a,{b,c}}d", "{}", "{a}", "'*'"]) for _ in range(1 + r.below(5))]
+        ws = [r.choice(["prog", "{a,b}", "x{1..3}", "{1..3}", "~", "~/x", "*", "a*", "'{a,b}'", '"~"', "$A", "{a,{b,c}}d", "{}", "{a}", "'*'", "~/{a,b}", "~/*", "~/x{1..2}"]) for _ in range(1 + r.below(5))]
         ts = []
         for w in ws:
             if w[0] in "'\"" and len(w) > 1:
                 ts.append((w[0], w[1:-1]))
             else:
                 ts.append(("", w))
-        cases.append(Case("xall", [env, toks(ts)], {"gen": "mix"}))
+        cases.append(Case("xall", [env_blank if r.below(3) == 0 else env, toks(ts)], {"gen": "mix"}))
     return cases
 
 
